@@ -34,6 +34,8 @@ def gen_tree(rng, cfg, n_files):
         k = rng.random()
         if k < 0.15:
             body = body.replace("\n", "\r\n")
+        elif k < 0.3:
+            body = body.replace("\n", "\r")         # classic Mac line ends: a bare carriage return ends a line
         elif k < 0.25 and body.endswith("\n"):
             body = body[:-1]
         if rng.random() < 0.2:
@@ -269,6 +271,10 @@ def files_scope(res, pid, rng, tier):
             run_dir_api(cfg, ind3, outc)
             gotc = read_tree(outc)
             res.evaluations += len(bad_files)
+            for bf in ("0bad-late.cfg", ):
+                if bf in gotb and gotb[bf] != b"":
+                    fails.append({"kind": "a file that cannot be decoded got an output file with content", "cfg": cfg.describe(), "file": bf,
+                                  "output_bytes": gotb[bf][:120].decode("utf-8", "replace")})
             stray = sorted(k for k in gotb if k not in gotc and k not in bad_files)
             if stray:
                 fails.append({"kind": "something other than the output files was written (run with files that cannot be processed)", "cfg": cfg.describe(),
